@@ -640,6 +640,26 @@ def run(ctx):
         except Exception as e:
             ctx.obligation("Calculator on synthetic data set %d" % ri, "machinery", False, "%s: %s" % (type(e).__name__, e))
             continue
+        # "the adiabatic and isothermal keywords select the corresponding tensors": the (T,P) tables the writer reads
+        # must be the conversion of their OWN (T,V) tensor, in whichever order the two families are read
+        pb = calc.pressure_base
+        order = [("modulus_isothermal", calc.modulus_isothermal), ("modulus_adiabatic", calc.modulus_adiabatic)]
+        if ri % 2:
+            order.reverse()
+        for rep in range(2):
+            for prop, tv in order:
+                for key, arr in tv.items():
+                    want = np.asarray(pb.v2p(np.array(arr, dtype=float)), dtype=float)
+                    got = np.asarray(getattr(pb, prop)[key], dtype=float)
+                    if got.shape != want.shape or not np.allclose(got, want, rtol=1e-12, atol=0.0, equal_nan=True):
+                        ctx.failure("tp-%s-not-own-tensor" % prop,
+                                    "pressure_base.%s[c%d%d] is not the (T,P) conversion of Calculator.%s[c%d%d] (read order %s, "
+                                    "pass %d): max |diff| = %.6g" % (prop, key.v[0], key.v[1], prop, key.v[0], key.v[1],
+                                                                    [o[0] for o in order], rep,
+                                                                    float(np.nanmax(np.abs(got - want))) if got.shape == want.shape else -1),
+                                    input=dict(grid=g, read_order=[o[0] for o in order], key="c%d%d" % key.v))
+                        break
+        ctx.count("real Calculator: (T,P) modulus tables checked against their own (T,V) tensor in both families")
         keys = [tuple(k.v) for k in calc.modulus_keys]
         grid = dict(g, nvol=len(calc.volume_base.v_array))
         # (a) exactly what `cij run` does: write_output() with the whole output section, one directory
